@@ -1,7 +1,7 @@
 //! The C18 oracle: answers of the real query handle vs direct filters over the model.
 
 use crate::keys::{self, Method};
-use crate::model::{Cell, Ev, H, Mode, Model, SK, Scr};
+use crate::model::{Cell, Ev, H, Mode, Model, Quirks, SK, Scr};
 use ckb_indexer::IndexerHandle;
 use ckb_jsonrpc_types::{IndexerCellType, IndexerOrder, IndexerTx, JsonBytes, Uint32};
 use ckb_types::packed;
@@ -296,15 +296,20 @@ impl<'a> Ctx<'a> {
         }
     }
 
-    /// Implementation-shaped diagnosis used ONLY to name a deviation precisely (never to decide
-    /// whether there is one): with keys laid out as script-bytes ++ big-endian block number,
-    /// a search script whose args are a stored script's args followed by 0x00 bytes is a byte
-    /// prefix of that stored script's rows.
-    fn is_shorter_args_plus_zeros(key: &Scr, s: &Scr) -> bool {
-        s.same_code(key)
-            && s.args.len() < key.args.len()
-            && key.args.starts_with(&s.args)
-            && key.args[s.args.len()..].iter().all(|b| *b == 0)
+    /// Names for a deviation that is exactly explained by a hypothesised quirk (diagnosis only:
+    /// whether there IS a deviation was decided by the documented semantics before).
+    fn diagnose(method: &str, explains: impl Fn(Quirks) -> bool) -> Vec<String> {
+        let len = format!("{method}.script_len_range_upper_bound_is_inclusive");
+        let zero = format!("{method}.prefix_search_matches_scripts_with_shorter_args@search_args_end_with_zero_bytes");
+        if explains(Quirks { len_end_inclusive: true, zero_prefix: false }) {
+            vec![len]
+        } else if explains(Quirks { len_end_inclusive: false, zero_prefix: true }) {
+            vec![zero]
+        } else if explains(Quirks { len_end_inclusive: true, zero_prefix: true }) {
+            vec![len, zero]
+        } else {
+            vec![]
+        }
     }
 
     fn check_cells(&mut self, sk: &SK) {
@@ -336,7 +341,7 @@ impl<'a> Ctx<'a> {
         if a != e {
             let extra: Vec<CellAns> = a.iter().filter(|x| !e.contains(x)).cloned().collect();
             let missing: Vec<CellAns> = e.iter().filter(|x| !a.contains(x)).cloned().collect();
-            let mut sig = format!(
+            let sig = format!(
                 "get_cells.{}@{}",
                 match (extra.is_empty(), missing.is_empty()) {
                     (false, true) => "extra_cells",
@@ -345,17 +350,13 @@ impl<'a> Ctx<'a> {
                 },
                 tag(sk)
             );
-            if missing.is_empty() && sk.eff_mode() == Mode::Prefix && !extra.is_empty() {
-                let all_short = extra.iter().all(|x| {
-                    self.m.live.get(&(x.tx_hash, x.index)).map(|c| {
-                        let s = if sk.is_lock { Some(&c.lock) } else { c.type_.as_ref() };
-                        s.map(|s| Self::is_shorter_args_plus_zeros(&sk.script, s)).unwrap_or(false)
-                    }).unwrap_or(false)
-                });
-                if all_short {
-                    sig = "get_cells.prefix_search_returns_scripts_with_shorter_args@args_end_with_zero_bytes".to_string();
-                }
-            }
+            let named = Self::diagnose("get_cells", |q| {
+                let mut v: Vec<CellAns> = self.m.cells_for_with(sk, q).into_iter().map(|c| CellAns::of(c, wd)).collect();
+                v.sort();
+                v == a
+            });
+            let sigs = if named.is_empty() { vec![sig] } else { named };
+            for sig in sigs {
             self.fail(
                 sig,
                 format!("get_cells (asc, no cursor) returned {} cells, the filter over the model's live cells gives {}: {} extra, {} missing", a.len(), e.len(), extra.len(), missing.len()),
@@ -363,6 +364,7 @@ impl<'a> Ctx<'a> {
                 json!({"order": "asc", "limit": BIG, "extra": show_list(&extra, |c| c.show()), "missing": show_list(&missing, |c| c.show()),
                        "expected": show_list(&exp, |c| c.show()), "actual": show_list(&full, |c| c.show())}),
             );
+            }
             return;
         }
         // (b) the order: (block number, tx index, output index) within one script
@@ -481,46 +483,21 @@ impl<'a> Ctx<'a> {
         if got == want {
             return;
         }
-        let mut sig = format!("get_cells_capacity.{}@{}", match (&got, &want) {
+        let sig = format!("get_cells_capacity.{}@{}", match (&got, &want) {
             (Some(g), Some(w)) if g.0 != w.0 && (g.1, g.2) == (w.1, w.2) => "wrong_sum",
             (Some(_), Some(_)) => "wrong_tip",
             _ => "null_mismatch",
         }, tag(sk));
-        // name two precise deviations (diagnosis only)
+        let mut sigs = vec![sig];
         if let (Some(g), Some(w)) = (&got, &want) {
             if (g.1, g.2) == (w.1, w.2) {
-                if let Some(f) = &sk.filter {
-                    if let Some((lo, hi)) = f.script_len_range {
-                        let mut sk2 = sk.clone();
-                        sk2.filter.as_mut().unwrap().script_len_range = Some((lo, hi + 1));
-                        let alt: u64 = self.m.cells_for(&sk2).iter().map(|c| c.capacity).sum();
-                        if alt == g.0 {
-                            sig = "get_cells_capacity.script_len_range_upper_bound_is_inclusive".to_string();
-                        }
-                    }
-                }
-                if sk.eff_mode() == Mode::Prefix && g.0 > w.0 && sig.contains("wrong_sum") {
-                    let extra: u64 = self
-                        .m
-                        .live
-                        .values()
-                        .filter(|c| {
-                            let s = if sk.is_lock { Some(&c.lock) } else { c.type_.as_ref() };
-                            s.map(|s| Self::is_shorter_args_plus_zeros(&sk.script, s)).unwrap_or(false) && {
-                                let mut sk2 = sk.clone();
-                                sk2.script = s.unwrap().clone();
-                                sk2.mode = Some(Mode::Exact);
-                                sk2.cell_matches(c)
-                            }
-                        })
-                        .map(|c| c.capacity)
-                        .sum();
-                    if w.0 + extra == g.0 {
-                        sig = "get_cells_capacity.prefix_search_counts_scripts_with_shorter_args@args_end_with_zero_bytes".to_string();
-                    }
+                let named = Self::diagnose("get_cells_capacity", |q| self.m.cells_for_with(sk, q).iter().map(|c| c.capacity).sum::<u64>() == g.0);
+                if !named.is_empty() {
+                    sigs = named;
                 }
             }
         }
+        for sig in sigs {
         self.fail(
             sig,
             format!("get_cells_capacity returned {:?}, the model gives {:?} (sum over {} cells)", got.map(|(c, n, x)| (c, n, sh(&x))), want.map(|(c, n, x)| (c, n, sh(&x))), cells.len()),
@@ -528,6 +505,7 @@ impl<'a> Ctx<'a> {
             json!({"expected_capacity": want.map(|w| w.0), "actual_capacity": got.map(|g| g.0),
                    "expected_cells": show_list(&cells, |c| CellAns::of(c, false).show())}),
         );
+        }
     }
 
     fn group(evs: &[TxAns]) -> Vec<TxItem> {
@@ -570,7 +548,7 @@ impl<'a> Ctx<'a> {
         if a != e {
             let extra: Vec<TxItem> = a.iter().filter(|x| !e.contains(x)).cloned().collect();
             let missing: Vec<TxItem> = e.iter().filter(|x| !a.contains(x)).cloned().collect();
-            let mut sig = format!(
+            let sig = format!(
                 "get_transactions.{}@{}",
                 match (extra.is_empty(), missing.is_empty()) {
                     (false, true) => "extra_entries",
@@ -579,20 +557,17 @@ impl<'a> Ctx<'a> {
                 },
                 tag(sk)
             );
-            if missing.is_empty() && !grouped && sk.eff_mode() == Mode::Prefix && !extra.is_empty() {
-                let all_short = extra.iter().all(|x| match x {
-                    TxItem::U(t) => self.m.evs.iter().any(|ev| {
-                        TxAns::of(ev) == *t && {
-                            let s = if sk.is_lock { Some(&ev.lock) } else { ev.type_.as_ref() };
-                            s.map(|s| Self::is_shorter_args_plus_zeros(&sk.script, s)).unwrap_or(false)
-                        }
-                    }),
-                    _ => false,
-                });
-                if all_short {
-                    sig = "get_transactions.prefix_search_returns_scripts_with_shorter_args@args_end_with_zero_bytes".to_string();
-                }
-            }
+            let named = if grouped {
+                vec![]
+            } else {
+                Self::diagnose("get_transactions", |q| {
+                    let mut v: Vec<TxItem> = self.m.evs_for_with(sk, q).into_iter().map(|e| TxItem::U(TxAns::of(e))).collect();
+                    v.sort();
+                    v == a
+                })
+            };
+            let sigs = if named.is_empty() { vec![sig] } else { named };
+            for sig in sigs {
             self.fail(
                 sig,
                 format!("get_transactions (asc, no cursor) returned {} entries, the model's transaction history gives {}: {} extra, {} missing", a.len(), e.len(), extra.len(), missing.len()),
@@ -600,6 +575,7 @@ impl<'a> Ctx<'a> {
                 json!({"order": "asc", "limit": BIG, "extra": show_list(&extra, |c| c.show()), "missing": show_list(&missing, |c| c.show()),
                        "expected": show_list(&exp, |c| c.show()), "actual": show_list(&full, |c| c.show())}),
             );
+            }
             return;
         }
         let ordered = if sk.eff_mode() == Mode::Exact {
